@@ -43,7 +43,7 @@ def d5(repo: Repo) -> RuleResult:
         f = m.lookup(c, meth)
         if f is None:
             raise Inconclusive(f"{cname}.{meth} vanished")
-        fl = compiler_flow(repo, cname, "_ast.py", inline=lambda n_, f_: n_ == "ahead_nbits", pure=("nbits", "fields", "sorted_fields", "nbytes"))
+        fl = compiler_flow(repo, cname, "_ast.py", inline=lambda n_, f_: n_ not in ("nbits", "fields", "sorted_fields", "nbytes"), pure=("nbits", "fields", "sorted_fields", "nbytes"))
         return f, [p_ for p_ in fl.run(f.node) if p_.done == "return" and p_.ret is not None]
 
     def simple(cname: str, want: List[str], what: str) -> None:
